@@ -1,9 +1,10 @@
 import errno
 import io
+import os
 import sys
 from abc import ABC, abstractmethod
 from enum import Enum
-from typing import BinaryIO, Optional, Dict, List, TextIO, Any
+from typing import BinaryIO, Optional, Dict, List, TextIO, Any, Set
 
 import dnaio
 from xopen import xopen
@@ -206,6 +207,7 @@ class OutputFiles:
         self._text_files: List[TextIO] = []
         self._writers: List[Any] = []
         self._record_writers: Dict[Any, Any] = {}
+        self._record_paths: Set[str] = set()
         self._proxy_files: List[ProxyWriter] = []
         self._proxied = proxied
         self._to_close: List[BinaryIO] = []
@@ -259,6 +261,17 @@ class OutputFiles:
         key = (paths, interleaved)
         if key in self._record_writers:
             return self._record_writers[key]
+        for path in paths:
+            if path in self._record_paths:
+                # Only some of the files are shared with another writer
+                raise OSError(
+                    f"Path {path} is needed for more than one output file. "
+                    "This is not supported."
+                )
+        # Special files (/dev/null, FIFOs) can be opened more than once
+        self._record_paths.update(
+            path for path in paths if path != "-" and not _is_special_file(path)
+        )
         binary_files = []
         for path in paths:
             binary_file = self._file_opener.xopen(path, "wb")
@@ -309,6 +322,10 @@ class OutputFiles:
                 f.close()
         for bf in self._binary_files_to_close:
             bf.close()
+
+
+def _is_special_file(path) -> bool:
+    return os.path.exists(path) and not os.path.isfile(path)
 
 
 def file_format_from_path(path) -> Optional[str]:
